@@ -105,6 +105,8 @@ class SecNode:
                 self.log.exception(traceback.format_exc())
             self.traceback_counter += 1
             self.errors.append(f'error initializing {modulename}: {e!r}')
+            # do not hand out this module as an attached module
+            modobj.initFailed = True
         self.initializing.remove(modobj)
         modobj._isinitialized = True
         self.log.debug('initialized module %r', modulename)
